@@ -79,6 +79,22 @@ def build_assertion(a, pool, foreign, idmap):
     k = a["k"]
     if k == "lit":
         return bool(a["v"]), {"k": "lit", "v": bool(a["v"])}
+    if k == "cmp" and a.get("vars"):
+        # the operands are held in caller variables with the given names when the comparison is written (the library
+        # derives attribute names from caller variable names); no outer frame holds the operand objects
+        ns = {"mk_l": lambda: build_operand(a["l"], pool, foreign), "mk_r": lambda: build_operand(a["r"], pool, foreign),
+              "abstract_": lambda o: abstract_operand(o, idmap)}
+        ln, rn = a["vars"]
+        rec = {"k": "cmp", "op": a["op"], "vars": [ln, rn]}
+        code = "%s = mk_l()\n%s = mk_r()\nrec_l_ = abstract_(%s)\nrec_r_ = abstract_(%s)\nres_ = %s %s %s\n" % (
+            ln, rn, ln, rn, ln, a["op"], rn)
+        try:
+            exec(code, ns)
+        except TypeError as e:
+            rec.update({"l": ns.get("rec_l_"), "r": ns.get("rec_r_")})
+            raise NotBuilt(rec, str(e))
+        rec.update({"l": ns["rec_l_"], "r": ns["rec_r_"]})
+        return ns["res_"], rec
     if k == "cmp":
         x, y = build_operand(a["l"], pool, foreign), build_operand(a["r"], pool, foreign)
         rec = {"k": "cmp", "op": a["op"], "l": abstract_operand(x, idmap), "r": abstract_operand(y, idmap)}
@@ -148,8 +164,8 @@ def run_case(c):
     model, pool = vbuild.build(af, prog)
     foreign = [af.UniformPrior(lower_limit=0.0, upper_limit=1.0) for _ in range(c.get("n_foreign", 0))]
     idmap = {p.id: i for i, p in enumerate(pool)}
-    for j, p in enumerate(foreign):
-        idmap[p.id] = len(pool) + j
+    for j in range(len(foreign)):
+        idmap[foreign[j].id] = len(pool) + j
     attaches = []
     for a in c["asserts"]:
         level = model
@@ -207,6 +223,10 @@ def run_case(c):
             r["vec"] = [hexf(x) for x in model.vector_from_unit_vector(unit, ignore_prior_limits=True)]
         except BaseException as e:  # noqa
             r["vec"] = None
+        # the values the strict route itself uses (value_for may round differently when limits are not ignored)
+        sv = verdict(lambda: tuple(float(x) for x in model.vector_from_unit_vector(unit)))
+        r["vec_strict"] = [hexf(unhex(x["v"])) for x in sv["ok"]["vs"]] if "ok" in sv and sv["ok"].get("t") == "tup" else None
+        r["vec_strict_verdict"] = None if "ok" in sv else sv
         out["unit_runs"].append(r)
     import random as _r
     import numpy as np
